@@ -57,6 +57,8 @@ var go2coqTargets = []string{
 	"Conn.getRequestCapabilities", "Conn.negotiateCapabilities", "Conn.handleCapNak",
 	"Conn.h_903", "Conn.h_904", "Conn.h_908",
 	"Conn.handleCapAck", "Conn.h_CAP", "Conn.h_AUTHENTICATE",
+	// stage 7: the two capability queries a user makes after negotiation
+	"Conn.SupportsCapability", "Conn.HasCapability",
 	// stage 2: state handlers (group 3) — those that need neither (*Nick).Equals nor fallthrough
 	"Conn.h_STNICK", "Conn.h_PART", "Conn.h_KICK", "Conn.h_QUIT", "Conn.h_TOPIC",
 	"Conn.h_324", "Conn.h_332", "Conn.h_671",
